@@ -45,14 +45,25 @@ def addressing(facts):
     from triggers import plainly_assigned_locals
     fs = cm(facts)
     out = []
+    # the row-seed vector is the member the constructor fills element by element (push_back inside its loop), whatever its name
+    SEEDS = "hash_seeds"
+    for f0 in fs.values():
+        if f0.get("kind") == "ctor" and f0.get("body") is not None and not f0.get("special"):
+            for L0 in _loops(f0["body"]):
+                pb = []
+                walk(L0.get("b"), lambda n: pb.append(n) if n.get("k") == "Call" and n.get("cname") in ("push_back", "emplace_back") and n.get("obj") is not None else None)
+                for c0 in pb:
+                    o0 = strip_all(c0["obj"])
+                    if o0.get("k") == "Member" and strip_all(o0.get("b") or {}).get("k") == "This" and o0.get("f") != "_sketch_array":
+                        SEEDS = o0["f"]
     for pat, fn in sorted(fs.items()):
         if fn["name"] == "get_hashes":
             key = "count_min_sketch::get_hashes:index-shape"
             pa = {d: v[0] for d, v in plainly_assigned_locals(fn).items() if len(v) == 1}
             sa_h = single_assignment_locals(fn)
-            loops = [l for l in _loops(fn["body"]) if l.get("k") == "RangeFor" and txt(l.get("range")) == "hash_seeds"]
+            loops = [l for l in _loops(fn["body"]) if l.get("k") == "RangeFor" and txt(l.get("range")) == SEEDS]
             # the same iteration written with an index that also serves as the row number: for (i = 0; i < hash_seeds.size(); ++i)
-            idx_loops = [l for l in _loops(fn["body"]) if l.get("k") == "For" and l.get("c") is not None and "hash_seeds.size()" in txt(l["c"], sa_h)
+            idx_loops = [l for l in _loops(fn["body"]) if l.get("k") == "For" and l.get("c") is not None and (SEEDS + ".size()") in txt(l["c"], sa_h)
                          and isinstance(l.get("init"), dict) and l["init"].get("k") == "Decl" and strip_all(l["init"]["vars"][0].get("init") or {}).get("v") == 0]
             problems = []
             IDX = None
@@ -75,7 +86,7 @@ def addressing(facts):
                     a = strip_all(a)
                     i = a.get("i") if a.get("k") == "Index" else (a["args"][1] if a.get("k") == "OpCall" and a.get("op") == "[]" and len(a.get("args", [])) == 2 else None)
                     b = a.get("b") if a.get("k") == "Index" else (a["args"][0] if a.get("k") == "OpCall" and a.get("args") else None)
-                    return i is not None and _ref_d(i) == IDX and txt(b) == "hash_seeds"
+                    return i is not None and _ref_d(i) == IDX and txt(b) == SEEDS
                 if len(murmurs) != 1 or len(murmurs[0].get("args", [])) != 4 or [_ref_d(a) for a in murmurs[0]["args"][:2]] != [fn["params"][0]["d"], fn["params"][1]["d"]] or not is_seed(murmurs[0]["args"][2]):
                     problems.append("hash is not MurmurHash3_x64_128(item, size, <row seed>, ..)")
                 else:
